@@ -153,6 +153,15 @@ pub fn kind_name(k: ErrorKind) -> String {
     format!("{:?}", k)
 }
 
+/// label of an I/O error as the seam injects it and as the reader hands it back: the kind, plus
+/// the raw OS error code if the error carries one (C14: "unchanged" includes the code)
+pub fn io_label(e: &std::io::Error) -> String {
+    match e.raw_os_error() {
+        Some(c) => format!("{:?}#os{}", e.kind(), c),
+        None => format!("{:?}", e.kind()),
+    }
+}
+
 /// One reader configuration: capacity, growth policy and how the source
 /// splits its data over read calls.
 #[derive(Serialize, Deserialize, Clone, Debug, PartialEq)]
